@@ -832,6 +832,7 @@ pub fn cases(tier: &str) -> Vec<Value> {
         }
     }
     out.push(json!({"engine":"enet","check":"c07","kind":"in_addr"}));
+    out.extend(crate::checks::episode::cases("c07", tier == "thorough"));
     out
 }
 
@@ -1018,8 +1019,21 @@ fn run_in_addr(case: &Value) -> CaseResult {
     res
 }
 
+fn run_episode(case: &Value) -> CaseResult {
+    match crate::checks::episode::run(case) {
+        Err(e) => CaseResult::machinery(format!("episode: {e}")),
+        Ok(o) => {
+            let mut res = CaseResult::ok(format!("episode:{}:{}:{}", case["c1"].as_str().unwrap_or(""), case["action"].as_str().unwrap_or(""), match o.q1.replies.first() { Some((_, m)) => format!("rcode{}", m.rcode()), None => "silent".into() }));
+            res.violations = crate::checks::episode::judge_c07(case, &o);
+            res.stats = crate::checks::episode::stats(&o);
+            res
+        }
+    }
+}
+
 pub fn run_case(case: &Value) -> CaseResult {
     match case["kind"].as_str() {
+        Some("episode") => return run_episode(case),
         Some("family") => return run_family(case),
         Some("big") => return run_big(case),
         Some("uptime") => return run_uptime(case),
